@@ -32,9 +32,9 @@ Round 2 — the Python side:
   hand-made state array, zero volume, zero distance — are modelled and simply excluded by "returns");
 * `kinetics_euler_agree_grid` / `_graph`: Python kinetics value = rate = Euler derivative of the marshalled system
   (with `dxdtf_eq_rate` of Props/C01Dxdtf.lean, for size-1 systems, this is `three_agree`);
-NOT proved: totality of the kinetics functions on valid systems (that they do not raise) and the dimension of the final sum
-as one theorem (`pyRateLoop_dim` + `rate_dim_amount_per_time` give the reaction terms); the step from "tables agree
-pointwise" (`marshal_read_*`, `split_layout`) to `eulerDxdt` on the decoded arrays (covered by ops `marshal` + `euler_step`);
+Round 3 (Props/C01Total.lean): totality and dimension — on valid systems the kinetics functions return, with dimension
+amount/time, for every entry (`kinetics_total_graph`, `kinetics_total_grid`, `kinetics_eq_rate_*_total`).
+NOT proved: the step from "tables agree pointwise" (`marshal_read_*`, `split_layout`) to `eulerDxdt` on the decoded arrays (covered by ops `marshal` + `euler_step`);
 float rounding.
 -/
 import Strengths.Proofs.Kinetics
